@@ -180,3 +180,19 @@ package caskettls
 //@   modifies E:string, Config.GetCertificate, ghost:selected
 //@   at call (configGroup).getConfig do selected = result
 //@   ensures [the_selected_sites_tls_settings_or_none] result1 == nil && ((selected != 0 ==> result0 == (*Config)(selected).tlsConfig) && (selected == 0 ==> result0 == nil))
+
+//@ unit config_rest_sweep props=C06,C11 files=config.go nilchecks=on nonnil_params=on exclude=`caskettls\.(MakeTLSConfig|assertConfigsCompatible|assertClientCertsCompatible|SetDefaultTLSParams|getPreferredDefaultCiphers)$|caskettls\.Config\)\.buildStandardTLSConfig$` filter=`.`
+//@ // the rest of config.go (NewConfig, the configuration-getter registry, name look-ups in the protocol and cipher tables): safety sweep
+//@ use @verif/specs/stdlib.spec:stdlib
+//@ invariant configGetters != nil
+//@ extern github.com/caddyserver/certmagic.New
+//@   ensures result != nil
+//@ extern github.com/caddyserver/certmagic.NewCache
+//@   ensures result != nil
+//@ // an instance is made with its storage map (casket.Start, Restart, ValidateAndExecuteDirectives all do `make`)
+//@ func NewConfig
+//@   requires inst != nil && inst.Storage != nil
+//@ // certmagic only caches certificates that have at least one subject name (it rejects others when loading them): assumed
+//@ func NewConfig$1
+//@   requires len(cert.Names) >= 1 && inst != nil
+//@   requires forallT(m, map[string]*Config, forallT(h, string, has(m, h) ==> m[h] != nil))
